@@ -3,7 +3,7 @@ CONSTANTS
   MaxLive = 1
   MaxStops = 1
   Timeout = 2
-  MaxBlocks = 0
+  MaxBlocks = 1
   ForcedAwaitsWorkers = FALSE
   GracefulSkipsAwait = FALSE
   CompleteBeforeJoin = FALSE
@@ -11,8 +11,9 @@ CONSTANTS
   SecondStopHangs = FALSE
   AwaitsLastWorkerOnly = FALSE
   WakeAcceptFirst = FALSE
-  MidPollIgnoresStop = FALSE
+  MidPollIgnoresStop = TRUE
 SPECIFICATION Spec
 VIEW View
-INVARIANTS NEG_ForcedNeverCompletesWithLive
+INVARIANTS C06_GracefulWaits C06_GracefulLetsFinish C06_NoDispatchAfterCompletion C06_SignalKinds
+PROPERTIES Steps
 CHECK_DEADLOCK FALSE
